@@ -372,6 +372,9 @@ def _work(units):
     out = {"cov": {}, "viol": [], "outcomes": [], "samples": [], "known": {}}
     for (hname, mode, mods, bound, cap, prefix) in units:
         stats = {}
+        if "@" in mode:  # function-entry granularity: every unit carries the stride its prefix was recorded with
+            mode, stride = mode.split("@")
+            xsched.CALL_STRIDE[0] = int(stride)
         modules = MODSETS[mods]
         xsched.VISITS_MAX[0] = int(mode[len(mode.rstrip("0123456789")):] or 0)
         with xsched.Instrument(mode.rstrip("0123456789"), modules) as ins:
@@ -444,7 +447,8 @@ def plan_units(res, entry):
     points = pr["points"]
     res.set(f"points_default_schedule/{hname}/{mode}/{mods}", len(points))
     choices = [p[3] for p in points]
-    units = [(hname, mode, mods, bound, cap, "ROOT")]
+    umode = f"{mode}@{pr['stride']}" if mode == "call" else entry[1]
+    units = [(hname, umode, mods, bound, cap, "ROOT")]
     # "line2": the first deviation is taken only at the first 2 visits of every (thread, line) - loops and recursive descents
     # visit the same line hundreds of times; state that is built lazily is built at the first visits
     visits_max = int(mode[len(mode.rstrip("0123456789")):] or 0)
@@ -458,7 +462,7 @@ def plan_units(res, entry):
             if seen[(_t, _l)] > visits_max and not is_exit:
                 continue
         for alt in range(1, n_en):
-            units.append((hname, mode, mods, bound, cap, tuple(choices[:i] + [alt])))
+            units.append((hname, umode, mods, bound, cap, tuple(choices[:i] + [alt])))
     return units
 
 
@@ -531,6 +535,9 @@ def replay(data):
     prepare()
     modules = MODSETS[data.get("modules", "core")]
     xsched.CALL_STRIDE[0] = data.get("stride", 1)
+    if "@" in data["mode"]:
+        data = dict(data, mode=data["mode"].split("@")[0], stride=int(data["mode"].split("@")[1]))
+        xsched.CALL_STRIDE[0] = data["stride"]
     with xsched.Instrument(data["mode"].rstrip("0123456789"), modules):
         ex, ctx = xsched.run_schedule(harness(data["harness"]), data["schedule"])
         if ex.fault:
